@@ -29,7 +29,9 @@ import (
 //   - a parameter of a kind C19 lists gets the name augmentCall switches on
 //     (exact name for scalars and for composite types spelled with plain
 //     identifiers; the right prefix otherwise), and a parameter of another
-//     kind (array, struct, interface, named, generic) does not get one.
+//     kind (array, struct, interface, named, generic) does not get one;
+//   - parentheses around a receiver or parameter type (or inside it) change
+//     nothing: `(t (*T))` is a pointer receiver, `(int16)` is `int16`.
 
 func init() { props["C19C"] = runC19c } // stand-alone entry; C19 chains it as stream (e)
 
@@ -61,6 +63,8 @@ func exprJSON(e ast.Expr) interface{} {
 		return map[string]interface{}{"k": "map", "key": exprJSON(t.Key), "value": exprJSON(t.Value)}
 	case *ast.ChanType:
 		return map[string]interface{}{"k": "chan", "value": exprJSON(t.Value)}
+	case *ast.ParenExpr:
+		return map[string]interface{}{"k": "paren", "x": exprJSON(t.X)}
 	default:
 		return map[string]interface{}{"k": "other"}
 	}
@@ -126,7 +130,9 @@ type tyGen struct {
 	Kind  string // scalar, ptr, slice, map, chan, func | array, struct, interface, named, qualified, generic, paren
 	Class string // class augmentCall must put the name in; "" = no claim
 	Exact string // exact expected name; "" = no claim
-	Ident bool   // the spelling is a plain identifier
+	Ident bool   // the spelling, parentheses aside, is a plain identifier
+	Canon string // the spelling without the parentheses gofmt would remove
+	Paren bool   // parenthesised at top level
 }
 
 var (
@@ -147,10 +153,10 @@ func genType(r *Rng, depth int) tyGen {
 	simple := func() tyGen {
 		if r.Chance(3, 4) {
 			s := c19Scalars[r.Intn(len(c19Scalars))]
-			return tyGen{Src: s, Kind: "scalar", Class: augClass(s), Exact: s, Ident: true}
+			return tyGen{Src: s, Kind: "scalar", Class: augClass(s), Exact: s, Ident: true, Canon: s}
 		}
 		s := c19Named[r.Intn(len(c19Named))]
-		return tyGen{Src: s, Kind: "named", Class: "other", Exact: s, Ident: true}
+		return tyGen{Src: s, Kind: "named", Class: "other", Exact: s, Ident: true, Canon: s}
 	}
 	if depth >= 3 {
 		return simple()
@@ -161,65 +167,80 @@ func genType(r *Rng, depth int) tyGen {
 		}
 		return genType(r, depth+1)
 	}
-	switch r.Intn(20) {
+	// Exact names are written from the spelling with the parentheses gofmt
+	// would remove dropped (Canon): `*(T)` is `*T`, `[](*T)` is `[]*T`.
+	switch r.Intn(22) {
 	case 0, 1, 2, 3, 4:
 		return simple()
 	case 5, 6:
 		in := inner()
-		t := tyGen{Src: "*" + in.Src, Kind: "ptr", Class: "*"}
+		t := tyGen{Src: "*" + in.Src, Canon: "*" + in.Canon, Kind: "ptr", Class: "*"}
 		if in.Ident {
-			t.Exact = t.Src
+			t.Exact = t.Canon
 		}
 		return t
 	case 7, 8:
 		in := inner()
-		t := tyGen{Src: "[]" + in.Src, Kind: "slice", Class: "[]"}
+		t := tyGen{Src: "[]" + in.Src, Canon: "[]" + in.Canon, Kind: "slice", Class: "[]"}
 		if in.Ident || (in.Kind == "ptr" && in.Exact != "") {
-			t.Exact = t.Src // []T, []*T
+			t.Exact = t.Canon // []T, []*T
 		}
 		return t
 	case 9:
 		in := inner()
-		return tyGen{Src: c19Arrays[r.Intn(len(c19Arrays))] + in.Src, Kind: "array", Class: "other"}
+		a := c19Arrays[r.Intn(len(c19Arrays))]
+		return tyGen{Src: a + in.Src, Canon: a + in.Canon, Kind: "array", Class: "other"}
 	case 10, 11:
 		k, v := inner(), inner()
-		t := tyGen{Src: "map[" + k.Src + "]" + v.Src, Kind: "map", Class: "single"}
+		t := tyGen{Src: "map[" + k.Src + "]" + v.Src, Canon: "map[" + k.Canon + "]" + v.Canon, Kind: "map", Class: "single"}
 		if k.Ident && v.Ident {
-			t.Exact = t.Src
+			t.Exact = t.Canon
 		}
 		return t
 	case 12, 13:
 		in := inner()
 		dir := []string{"chan ", "<-chan ", "chan<- "}[r.Intn(3)]
-		src := in.Src
-		if strings.HasPrefix(src, "<-") {
-			src = "(" + src + ")"
+		src, canon := in.Src, in.Canon
+		if strings.HasPrefix(canon, "<-") {
+			// these parentheses are needed: `chan (<-chan int)`
+			canon = "(" + canon + ")"
+			if !strings.HasPrefix(src, "(") {
+				src = "(" + src + ")"
+			}
 		}
-		t := tyGen{Src: dir + src, Kind: "chan", Class: "single"}
+		t := tyGen{Src: dir + src, Canon: dir + canon, Kind: "chan", Class: "single"}
 		if in.Ident {
-			t.Exact = "chan " + in.Src
+			t.Exact = "chan " + in.Canon
 		}
 		return t
 	case 14:
-		return tyGen{Src: c19Funcs[r.Intn(len(c19Funcs))], Kind: "func", Class: "single", Exact: "func"}
+		s := c19Funcs[r.Intn(len(c19Funcs))]
+		return tyGen{Src: s, Canon: s, Kind: "func", Class: "single", Exact: "func"}
 	case 15:
-		return tyGen{Src: c19Ifaces[r.Intn(len(c19Ifaces))], Kind: "interface", Class: "other"}
+		s := c19Ifaces[r.Intn(len(c19Ifaces))]
+		return tyGen{Src: s, Canon: s, Kind: "interface", Class: "other"}
 	case 16:
-		return tyGen{Src: c19Structs[r.Intn(len(c19Structs))], Kind: "struct", Class: "other"}
+		s := c19Structs[r.Intn(len(c19Structs))]
+		return tyGen{Src: s, Canon: s, Kind: "struct", Class: "other"}
 	case 17:
 		s := c19Quals[r.Intn(len(c19Quals))]
-		return tyGen{Src: s, Kind: "qualified", Class: "other"}
+		return tyGen{Src: s, Canon: s, Kind: "qualified", Class: "other"}
 	case 18:
 		s := c19Gens[r.Intn(len(c19Gens))]
 		if strings.HasPrefix(s, "*") {
-			return tyGen{Src: s, Kind: "ptr", Class: "*"}
+			return tyGen{Src: s, Canon: s, Kind: "ptr", Class: "*"}
 		}
-		return tyGen{Src: s, Kind: "generic", Class: "other"}
+		return tyGen{Src: s, Canon: s, Kind: "generic", Class: "other"}
 	default:
-		in := inner()
-		// a parenthesised type is the same type, but the code does not look
-		// through the parentheses: no claim
-		return tyGen{Src: "(" + in.Src + ")", Kind: "paren"}
+		// a parenthesised type is the type: `(int16)`, `(*T)`, `([]byte)`,
+		// `((int))`. Every claim about the inner type carries over.
+		t := inner()
+		t.Src = "(" + t.Src + ")"
+		if r.Chance(1, 3) {
+			t.Src = "(" + t.Src + ")"
+		}
+		t.Paren = true
+		return t
 	}
 }
 
@@ -255,9 +276,10 @@ var c19cRecvs = []struct {
 	{"(t *[]int) ", 1, ""},
 	// accepted by go/parser although they are not valid Go
 	{"(a, b *T) ", 2, "*T"}, {"() ", 0, ""}, {"(a *T, b *U) ", 0, ""}, {"(a T, b *U) ", 0, ""}, {"(a, b T) ", 0, ""},
-	// a parenthesised pointer receiver is a pointer receiver for the compiler
-	// but not a *ast.StarExpr: no claim (see the report of C19c)
-	{"(t (*T)) ", -1, ""}, {"((*T)) ", -1, ""}, {"(t (T)) ", 0, ""},
+	// parenthesised receiver types (gofmt removes the parentheses; the
+	// compiler accepts them): the same receivers
+	{"(t (*T)) ", 1, "*T"}, {"((*T)) ", 1, "*T"}, {"(t (T)) ", 0, ""}, {"(t ((*T))) ", 1, "*T"}, {"(t *(T)) ", 1, "*T"},
+	{"(t (*(T))) ", 1, "*T"}, {"(_ (*pkg.T)) ", 1, ""}, {"(t (G[K])) ", 0, ""}, {"(a, b (*T)) ", 2, "*T"},
 }
 
 func genC19cCase(r *Rng) c19cCase {
@@ -396,9 +418,6 @@ func c19cOracle(c *c19cCase, types []string, ell bool) string {
 	if len(types) == 0 && ell {
 		return "no type name but the ellipsis flag is set (augmentCall would index types[-1])"
 	}
-	if c.RecvUsed < 0 {
-		return ""
-	}
 	want := c.RecvUsed
 	for _, p := range c.Params {
 		if p.Names == 0 {
@@ -455,7 +474,7 @@ type typenamesRep struct {
 
 // runC19c is stream (e) of C19.
 func runC19c(prop string, res *Result, pool *DrvPool, r *Rng) {
-	res.Rule += " (e) generated one-to-three-function sources: methods with value / pointer / generic / qualified / grouped / empty / double / parenthesised receivers, unnamed, single, grouped and `_` parameter names, types drawn recursively over scalars, named and qualified names, pointers, slices, arrays ([4], [N], [2+2] …), maps, directed channels, func types, interfaces, structs, generic instantiations and parenthesised types, variadic last (and sometimes not last) parameter, type parameters, results, multi-line parameter lists, neighbouring functions and function literals; stack.VerifExtractTypes vs model op typenames on the go/parser tree converted by a type switch; oracle from the generated spelling (count, flag, receiver, class/exact name of the C19 kinds). One case in six is a damaged text (mostly unparsable: only found/not-found agreement and, if it parses, correspondence). Non-trivial = parsed, function found and at least one type name."
+	res.Rule += " (e) generated one-to-three-function sources: methods with value / pointer / generic / qualified / grouped / empty / double / parenthesised receivers, unnamed, single, grouped and `_` parameter names, types drawn recursively over scalars, named and qualified names, pointers, slices, arrays ([4], [N], [2+2] …), maps, directed channels, func types, interfaces, structs, generic instantiations and parenthesised types ((int16), (*T), ([]byte), ((int)), *(T), [](*T) …: same claims as without the parentheses), variadic last (and sometimes not last) parameter, type parameters, results, multi-line parameter lists, neighbouring functions and function literals; stack.VerifExtractTypes vs model op typenames on the go/parser tree converted by a type switch; oracle from the generated spelling (count, flag, receiver, class/exact name of the C19 kinds). One case in six is a damaged text (mostly unparsable: only found/not-found agreement and, if it parses, correspondence). Non-trivial = parsed, function found and at least one type name."
 	n := countN(res.Tier, 50000, 1500000)
 	for i := 0; i < n; i++ {
 		c := genC19cCase(r)
@@ -513,6 +532,9 @@ func runC19c(prop string, res *Result, pool *DrvPool, r *Rng) {
 			res.Count("e:recv:" + strings.TrimSpace(c.RecvSrc))
 			for _, p := range c.Params {
 				res.Count("e:kind:" + p.T.Kind)
+				if p.T.Paren {
+					res.Count("e:parenthesised")
+				}
 				switch {
 				case p.Names == 0:
 					res.Count("e:names:0")
